@@ -7,6 +7,16 @@ From Coq Require Import ZArith List Bool Lia.
 Import ListNotations.
 Open Scope Z_scope.
 
+(* decoding of the generated rows (see the header of GenTable.v) *)
+Fixpoint digits16 (fuel : nat) (z : Z) : list Z :=
+  match fuel with
+  | O => []
+  | S f => if z <=? 0 then [] else (z mod 16 - 1) :: digits16 f (z / 16)
+  end.
+Definition row_of (z : Z) : list Z := if z <? 0 then [z] else digits16 16 z.
+Definition gen_table_model : list (list Z) := map row_of gen_rows_model.
+Definition gen_table_class : list (list Z) := map row_of gen_rows_class.
+
 Definition dof (z : Z) : option derive :=
   if z =? 0 then Some DDebug else if z =? 1 then Some DDisplay else if z =? 2 then Some DEq
   else if z =? 3 then Some DPartialEq else if z =? 4 then Some DOrd else if z =? 5 then Some DPartialOrd
@@ -61,7 +71,7 @@ Lemma table_ok_rows tbl : table_ok tbl = true ->
     sufficient req e = true /\
     (~ Known_C20_derive_display req -> resolvable e = true).
 Proof.
-  unfold table_ok. intros H f req. apply andb_prop in H as [Hlen Hall].
+  intros H f. intros req. unfold table_ok in H. apply andb_prop in H as [Hlen Hall].
   apply Nat.eqb_eq in Hlen.
   destruct (in_combine_ex req _ tbl (filter_in_powerset f decorators) Hlen) as [row Hrow].
   rewrite forallb_forall in Hall. specialize (Hall _ Hrow). cbn [fst snd] in Hall.
@@ -110,6 +120,33 @@ Proof.
   - reflexivity.
 Qed.
 
+Lemma has_l1 l x :
+  has (if has l DEq && negb (has l DPartialEq) then l ++ [DPartialEq] else l) x
+  = has l x || (derive_eqb x DPartialEq && has l DEq).
+Proof.
+  destruct (has l DEq) eqn:E1, (has l DPartialEq) eqn:E2; cbn [andb negb].
+  - destruct (derive_eqb x DPartialEq) eqn:E; cbn [andb]; [|now rewrite orb_false_r].
+    apply derive_eqb_eq in E. subst. now rewrite E2.
+  - rewrite has_app. cbn [has existsb]. now rewrite orb_false_r, andb_true_r.
+  - now rewrite andb_false_r, orb_false_r.
+  - now rewrite andb_false_r, orb_false_r.
+Qed.
+
+Lemma has_extract l x :
+  has (extract_derives l) x =
+    has l x || (derive_eqb x DPartialEq && (has l DEq || has l DOrd))
+    || (derive_eqb x DPartialOrd && has l DOrd) || (derive_eqb x DEq && has l DOrd).
+Proof.
+  unfold extract_derives.
+  rewrite (has_l1 l DOrd). change (derive_eqb DOrd DPartialEq) with false.
+  rewrite andb_false_l, orb_false_r.
+  destruct (has l DOrd) eqn:EO.
+  - rewrite !has_push, has_l1.
+    destruct (derive_eqb x DPartialEq), (derive_eqb x DPartialOrd), (derive_eqb x DEq), (has l x), (has l DEq); reflexivity.
+  - rewrite has_l1.
+    destruct (derive_eqb x DPartialEq), (derive_eqb x DPartialOrd), (derive_eqb x DEq), (has l x), (has l DEq); reflexivity.
+Qed.
+
 Lemma has_emitted l x :
   has (emitted l) x =
     negb (derive_eqb x DValidate) &&
@@ -121,20 +158,14 @@ Lemma has_emitted l x :
 Proof.
   unfold emitted. rewrite has_filter_const.
   2:{ intros y E. apply derive_eqb_eq in E. now subst. }
-  unfold lower_derives. rewrite !has_push. unfold extract_derives.
-  destruct (has l DEq) eqn:Eeq, (has l DPartialEq) eqn:Epe, (has l DOrd) eqn:Eord; cbn [andb negb orb];
-    rewrite ?has_app, ?Eord; cbn [has existsb]; rewrite ?has_push, ?has_app; cbn [has existsb];
-    fold (has l x); rewrite ?orb_false_r;
-    destruct x; cbn; rewrite ?Eeq, ?Epe, ?Eord, ?orb_true_r, ?orb_false_r, ?andb_true_r, ?andb_false_r; try reflexivity;
-    destruct (has l DDebug), (has l DDisplay), (has l DPartialOrd), (has l DHash), (has l DClone), (has l DCopy), (has l DDefault),
-      (has l DSerialize), (has l DDeserialize), (has l DValidate), (has l DFieldInfo), (has l DIncanClass); reflexivity.
+  unfold lower_derives. rewrite !has_push, has_extract. apply andb_comm.
 Qed.
 
 Lemma emitted_closed l : known_partialordb l = false -> closed (emitted l) = true.
 Proof.
-  unfold closed, known_partialordb. rewrite !has_emitted. cbn.
+  unfold closed, known_partialordb. rewrite !has_emitted.
   destruct (has l DEq), (has l DPartialEq), (has l DOrd), (has l DPartialOrd), (has l DCopy), (has l DClone);
-    cbn; intros H; try reflexivity; discriminate.
+    vm_compute; intros H; try reflexivity; discriminate.
 Qed.
 
 Lemma emitted_sufficient l : sufficient l (emitted l) = true.
@@ -146,7 +177,7 @@ Proof.
 Qed.
 
 Lemma emitted_resolvable l : has l DDisplay = false -> resolvable (emitted l) = true.
-Proof. unfold resolvable. rewrite has_emitted. cbn. intros ->. reflexivity. Qed.
+Proof. unfold resolvable. rewrite has_emitted. intros ->. vm_compute. reflexivity. Qed.
 
 Lemma emitted_refuted : known_partialordb [DPartialOrd] = true /\ closed (emitted [DPartialOrd]) = false.
 Proof. split; vm_compute; reflexivity. Qed.
